@@ -369,6 +369,10 @@ func c14Renderings(sem *gram.Node) []*gram.Node {
 func c14Frames() []c14Text {
 	var out []c14Text
 	ground := []gram.Leaf{gram.LInt, gram.LStr, gram.LDate, gram.LBytes, gram.LBool, gram.LSet, gram.LParam, gram.LSetStr}
+	// other spellings of the documented literal forms: RFC 3339 offsets and fractions, negative integers
+	spellings := []gram.Leaf{gram.L("2020-05-06T07:08:09+02:00", rx.Date(1588748889-7200)), gram.L("2020-05-06T07:08:09-05:00", rx.Date(1588748889+18000)),
+		gram.L("2020-05-06T07:08:09.250-07:30", rx.Date(1588748889+27000)), gram.L("-3", rx.Int(-3)), gram.L("-9223372036854775808", rx.Int(-9223372036854775808)),
+		gram.Leaf{Toks: []string{"[", "-3", ",", "4", "]"}, Val: rx.SetOf(rx.Int(-3), rx.Int(4))}}
 	all := append([]gram.Leaf{gram.LVarX}, ground...)
 	// facts: every ground term kind alone, in pairs, zero arity
 	out = append(out, c14Text{kind: "fact", toks: gram.Pred{Name: "zero"}.Tokens(), want: refdl.A("zero").Key(), label: "fact"})
@@ -382,6 +386,17 @@ func c14Frames() []c14Text {
 			pm2 := map[string]rx.Val{}
 			p2.Params(pm2)
 			out = append(out, c14Text{kind: "fact", toks: p2.Tokens(), params: pm2, want: p2.Atom().Key(), label: "fact"})
+		}
+	}
+	for _, a := range spellings {
+		for _, p := range []gram.Pred{{Name: "f", Terms: []gram.Leaf{a}}, {Name: "f", Terms: []gram.Leaf{gram.LInt, a}}, {Name: "f", Terms: []gram.Leaf{a, gram.LStr}}} {
+			out = append(out, c14Text{kind: "fact", toks: p.Tokens(), want: p.Atom().Key(), label: "fact-literal-spelling"})
+			out = append(out, c14Text{kind: "check", toks: gram.QueriesToks("check if", []gram.Body{{{P: &gram.Pred{Name: p.Name, Terms: p.Terms}}}}), want: refdl.Check{Queries: []refdl.Rule{gram.Body{{P: &gram.Pred{Name: p.Name, Terms: p.Terms}}}.Denote(gram.QueryHead())}}.String(), label: "check-literal-spelling"})
+		}
+		// as an expression operand: $x < literal, $x - literal
+		for _, op := range []rx.Binary{rx.LessThan, rx.Sub, rx.Equal} {
+			out = append(out, c14ExprFrames("expression-literal-spelling", gram.Minimal(gram.Bin(op, gram.Lf(gram.LVarX), gram.Lf(a))))...)
+			out = append(out, c14ExprFrames("expression-literal-spelling", gram.Minimal(gram.Bin(op, gram.Lf(a), gram.Lf(gram.LVarX))))...)
 		}
 	}
 	// rules and queries with 1-3 body elements
@@ -607,6 +622,7 @@ func init() {
 			}
 			spaces = append(spaces, mkSpace("frames", c14Frames(), []int{0, 1, 2, 3, 10, 20, 30}))
 			spaces = append(spaces, mkSpace("stated-error-cases", c14Errors(), []int{0, 1, 10, 20, 30}))
+			spaces = append(spaces, c14ReuseSpace())
 			// corruptions of a sub-corpus
 			var corpus []c14Text
 			fr := c14Frames()
